@@ -87,6 +87,35 @@ PROPS = {
         "partial": ["theorems: path-set laws (coherence for all paths; mathematical-set behaviour for known keys), path composition, walk root/leaf behaviour, attribute steps; 'each member exactly once', "
                     "'path applied to the root returns the visited member', transform identity/replacement and the mark round trip are oracle-checked on every generated value and compared with the model, not yet theorems"],
     },
+    "C08": {
+        "n_quick": 900, "n_thorough": 14000,
+        "check_fn": "k08_check", "prop_fn": "k08_prop",
+        "rule": "generated values (depth 3; known, null, unknown refined in every way, marked, at every depth) of generated types x target types derived from the value's type by 1..3 "
+                "kind changes (list/set/tuple, map/object), element conversions (to string, between primitives), dropped / added / optional attributes and inserted placeholders, or "
+                "unrelated, or the same; one third as (known value, weakened unknown) pairs for the admits clause; for every type pair both lookups and two applications of each returned "
+                "conversion to fresh values of the source type; every Convert repeated 4 times for stability under Go map order; non-trivial = every case",
+        "trusted_base": TB_VALUE + ["MismatchMessage (error text) and capsule conversion operations are not modelled (errors are compared by class; capsule types are not generated)"],
+        "assumptions": ["numbers with binary exponent beyond +-600 are not generated (decimal expansion cost in the model)"],
+        "refuted": [],
+        "partial": ["theorems cover the identity clause, the uniform wrapper (marks, dynamic target, null and unknown inputs never reach the type-directed conversion) and the primitive tables; "
+                    "conformance, idempotence, identity and safe-never-fails are evaluated on the model for every generated case (k08_prop by vm_compute) and on the implementation by the oracle, "
+                    "not proved for all inputs",
+                    "KF-C08-1: number -> string uses the shortest text at the number's own precision, so the round trip of a number held below 512 bits is not equal (same root as KF-C15-1)",
+                    "KF-C08-2: for a target with placeholders, a value's empty collections / absent optional attributes keep the placeholder while the unknown's result type resolves it"],
+        "prop_cases_are_inputs": True,
+    },
+    "C09": {
+        "n_quick": 700, "n_thorough": 12000,
+        "check_fn": "k08_check", "prop_fn": "k08_prop",
+        "rule": "lists of 1..4 types: a generated base type (depth 2, placeholders 8%), copies of it, types derived from it by kind changes / element conversions / attribute changes / "
+                "placeholders, and unrelated types; safe and unsafe unification, each repeated 4 times for stability; every returned conversion applied to two generated values (known, null, "
+                "unknown, marked) of its input type; non-trivial = every list of at least two types and every application",
+        "trusted_base": TB_VALUE,
+        "assumptions": ["numbers with binary exponent beyond +-600 are not generated"],
+        "partial": ["theorems cover the empty list, the all-dynamic fallback (every conversion yields DynamicVal) and single primitives; that each returned conversion yields the unified type, "
+                    "absent-iff-equal, safe-never-fails and unsafe-at-least-safe are evaluated per generated case on the model and by the oracle, not proved for all type lists"],
+        "prop_cases_are_inputs": True,
+    },
     "C10": {
         "n_quick": 1200, "n_thorough": 30000,
         "check_fn": "k10_check",
